@@ -59,7 +59,7 @@ def run(ctx):
 
     # every action of the generator was taken (evidence: the emitted protos contain the element it adds;
     # TLC's own -coverage instrumentation does not terminate on the recursive operators of Serde.tla)
-    expected_actions = {"BAddIn", "BAddInit", "BAddOut", "BAddNode", "BAddNIn", "BAddNOut", "BAddVI", "BAddQ", "BAddSub", "BAddFunc/Init(func)"}
+    expected_actions = {"BAddIn", "BAddInit", "BAddOut", "BAddNode", "BAddNIn", "BAddNOut", "BAddVI", "BAddQ", "BAddSub", "BAddFunc/Init(func)", "BAddDocOnly"}
     ctx.extra["generator_actions_taken"] = actions
     never = sorted(expected_actions - set(actions))
     if never:
